@@ -214,4 +214,11 @@ Proof.
   destruct (g y s1) as [[z|e] s2]; [|reflexivity].
   destruct (h z s2) as [[w|e] s3]; reflexivity.
 Qed.
+(* no hidden state: the state after a composition is exactly what its parts left, in order *)
+Lemma then_threads_state {A B C E1 E2} (f : op S A B E1) (g : op S B C E2) x s :
+  snd (then_ f g x s) = match f x s with (inl y, s1) => snd (g y s1) | (inr _, s1) => s1 end.
+Proof. unfold then_. destruct (f x s) as [[y|e] s1]; [|reflexivity]. destruct (g y s1) as [[z|e] s2]; reflexivity. Qed.
+Lemma and_threads_state {A B C E1 E2} (f : op S A B E1) (g : op S A C E2) x s :
+  snd (and_ f g x s) = match f x s with (inl _, s1) => snd (g x s1) | (inr _, s1) => s1 end.
+Proof. unfold and_. destruct (f x s) as [[y|e] s1]; [|reflexivity]. destruct (g x s1) as [[z|e] s2]; reflexivity. Qed.
 End Comb.
